@@ -247,6 +247,43 @@ theorem C34_repeat (env : Env) (before between : List (User × String × Target)
   refine ⟨hasPerm env q.1 q.2.1 q.2.2, ?_⟩
   rw [C34_session]; simp
 
+/-! ### the thread-local group / role caches across db_sessions -/
+
+/-- for ALL histories of db_sessions on one thread — any number of sessions, each ending by commit, by rollback or by a
+    failing commit, the rules and the answers of the getters changing arbitrarily BETWEEN sessions — every `has_perm`
+    answer of a session is computed from the groups and roles the getters return in THAT session: it equals the answer of
+    a fresh thread in the session's own world -/
+theorem C34_sessions_current (sessions : List (Env × List (User × String × Target) × ExitKind)) :
+    runThread { groups := [], roles := [] } sessions =
+      sessions.map (fun s => s.2.1.map (fun q => hasPerm s.1 q.1 q.2.1 q.2.2)) := by
+  suffices h : ∀ l : Local, l.groups = [] → l.roles = [] →
+      runThreadWith exitSession l sessions = sessions.map (fun s => s.2.1.map (fun q => hasPerm s.1 q.1 q.2.1 q.2.2)) from
+    h _ rfl rfl
+  induction sessions with
+  | nil => intro l _ _; rfl
+  | cons s rest ih =>
+    intro l hg hr
+    obtain ⟨env, calls, k⟩ := s
+    simp only [runThreadWith, List.map_cons]
+    have h1 := runSessionCalls_inv env calls { perm := [], loc := l } cacheInv_nil (lInv_empty env l hg hr)
+    generalize runSessionCalls env { perm := [], loc := l } calls = res at h1
+    obtain ⟨rs, s1⟩ := res
+    simp only at h1 ⊢
+    rw [h1, ih (exitSession k s1.loc) (by cases k <;> rfl) (by cases k <;> rfl)]
+
+/-- every kind of exit empties both caches -/
+theorem C34_exit_clears (k : ExitKind) (l : Local) : (exitSession k l).groups = [] ∧ (exitSession k l).roles = [] := by
+  cases k <;> exact ⟨rfl, rfl⟩
+
+/-- the theorem is sensitive to WHERE the caches are cleared: if they were cleared only after a successful commit, a user
+    demoted after a rolled-back session would keep the old answer (session 1: user 0 is in group g and is asked about;
+    it ends by rollback; session 2: user 0 is in no group) -/
+theorem C34_clear_on_commit_only_is_stale :
+    ∃ sessions, runThreadWith exitSessionCommitOnly { groups := [], roles := [] } sessions ≠
+      sessions.map (fun s => s.2.1.map (fun q => hasPerm s.1 q.1 q.2.1 q.2.2)) :=
+  ⟨[(witnessEnv, [(some 0, "view", .entity 2)], .rollback),
+    ({ witnessEnv with groupsOf := fun _ => [] }, [(some 0, "view", .entity 2)], .commit)], by decide⟩
+
 /-! ### `can_view`, `can_edit`, `can_create`, `can_delete` -/
 
 theorem C34_can_view (env : Env) (user : User) (x : Target) :
